@@ -126,6 +126,19 @@ def QUERIES(tier):
         'u+1-member': Query({'': G({'VCPU': None}),
                              '_1': G({'DISK_GB': 1}, mem=[[1]])},
                             policy='none'),
+        # a filter of one group must not leak into another: the unsuffixed
+        # group is restricted to an aggregate the sharing provider serving
+        # the other group is not a member of (both parameter orders)
+        'u-mem+D': Query({'': G({'VCPU': None}, mem=[[1]]),
+                          '_D': G({'DISK_GB': None})}, policy='none'),
+        'D+u-mem': Query({'_D': G({'DISK_GB': None}),
+                          '': G({'VCPU': None}, mem=[[1]])}, policy='none'),
+        'u-forbmem+D': Query({'': G({'VCPU': None}, fmem=[2]),
+                              '_D': G({'DISK_GB': None})}, policy='none'),
+        'u-intree+D': Query({'': G({'VCPU': None}, tree=1),
+                             '_D': G({'DISK_GB': None})}, policy='none'),
+        'u-req+D': Query({'': G({'VCPU': None}, req=[[T1]]),
+                          '_D': G({'DISK_GB': None})}, policy='none'),
         'u+1-forb-req': Query({'': G({'VCPU': None}, forb=[T1]),
                                '_1': G({'VCPU': 1}, req=[[T1]])},
                               policy='none'),
@@ -141,9 +154,13 @@ QUICK = [('flat', 'u-vcpu-disk', False), ('tree-t', 'u-req', False),
          ('tree-t', 'u-rootreq', False), ('two-i', '1+2-subtree', False),
          ('two', 'u-vcpu-disk', True), ('tree-a', 'u-notmember', False),
          ('tree', 'u+1+2-nonadj', False), ('flat-t', 'u+D-rootreq', False),
-         ('flat', 'u+D-root-notsharing', False), ('three', 'u-3rc', False)]
+         ('flat', 'u+D-root-notsharing', False), ('three', 'u-3rc', False),
+         ('flat-a', 'u-mem+D', False)]
 
 THOROUGH_EXTRA = [
+    ('flat-a', 'D+u-mem', False), ('tree-a', 'u-mem+D', False),
+    ('flat-a', 'u-forbmem+D', False), ('tree', 'u-intree+D', False),
+    ('flat-t', 'u-req+D', False), ('tree-t', 'u-req+D', False),
     ('three', 'u-3rc-rev', False), ('three-s', 'u-3rc', False),
     ('three', 'u-3rc+1', False), ('three', 'u-3rc', True),
     ('two', 'u+1+2-nonadj', False), ('two', '1+2+3-nonadj', False),
